@@ -22,6 +22,7 @@ type Thread struct {
 	daemon  bool        // environment thread (timer): never counts as a blocked participant
 	panicVal Value         // value of the Go panic being raised (explicit panics)
 	panicSt  *goPanicState // set while deferred calls run during a panic
+	frozen   bool          // freeze regime: not scheduled while any other thread can run
 }
 
 type mutexState struct {
@@ -91,7 +92,7 @@ func (in *Interp) waitBaton(t *Thread) {
 }
 
 func (in *Interp) isEnabled(t *Thread) bool {
-	return !t.done && (t.enabled == nil || t.enabled())
+	return !t.done && !t.frozen && (t.enabled == nil || t.enabled())
 }
 
 // schedule is called by the baton holder at a visible operation. curCan says
@@ -99,7 +100,21 @@ func (in *Interp) isEnabled(t *Thread) bool {
 // thread holds the baton again.
 func (in *Interp) schedule(curCan bool) {
 	cur := in.cur
-	curRunnable := curCan && !cur.done
+	// freeze regime: the current thread may stall here until nobody else can run (at most
+	// freezesLeft times per path) - "one goroutine is slow"
+	if in.cfg.FreezeMode && in.freezesLeft > 0 && curCan && !cur.done && !cur.frozen {
+		others := false
+		for _, t := range in.threads {
+			if t != cur && in.isEnabled(t) && !t.daemon {
+				others = true
+			}
+		}
+		if others && in.choose(func() []int { return []int{0, 1} }) == 1 {
+			in.freezesLeft--
+			cur.frozen = true
+		}
+	}
+	curRunnable := curCan && !cur.done && !cur.frozen
 	var en []int
 	if curRunnable {
 		en = append(en, cur.id)
@@ -107,6 +122,27 @@ func (in *Interp) schedule(curCan bool) {
 	for _, t := range in.threads {
 		if t != cur && in.isEnabled(t) {
 			en = append(en, t.id)
+		}
+	}
+	if len(en) == 0 {
+		// everybody else is blocked or done: stalled threads move again
+		thawed := false
+		for _, t := range in.threads {
+			if t.frozen {
+				t.frozen = false
+				thawed = true
+			}
+		}
+		if thawed {
+			curRunnable = curCan && !cur.done
+			if curRunnable {
+				en = append(en, cur.id)
+			}
+			for _, t := range in.threads {
+				if t != cur && in.isEnabled(t) {
+					en = append(en, t.id)
+				}
+			}
 		}
 	}
 	if len(en) == 0 {
@@ -128,7 +164,7 @@ func (in *Interp) schedule(curCan bool) {
 		panic(pathEnd{"infeasible", "deadlock"})
 	}
 	next := en[0]
-	if in.cfg.DelayMode {
+	if in.cfg.DelayMode || in.cfg.FreezeMode {
 		start := 0
 		if curRunnable {
 			start = 1
@@ -143,7 +179,7 @@ func (in *Interp) schedule(curCan bool) {
 		}
 		en = append(en[:start:start], append(after, before...)...)
 		next = en[0]
-		if in.delaysLeft > 0 && len(en) > 1 {
+		if in.cfg.DelayMode && in.delaysLeft > 0 && len(en) > 1 {
 			mx := in.delaysLeft
 			if mx > len(en)-1 {
 				mx = len(en) - 1
